@@ -143,7 +143,7 @@ theorem extBackEdgeStep_eq {m x : Graph} {a c : String} {re : EdgeRec} {sr dr : 
       simp only [ex, not_true_eq_false, if_false, if_pos hk, pure, Except.pure]
     · have ex : ¬ edgeExists x (fmt sr.var (-lag - (dr.lag - sr.lag))) (fmt dr.var (-lag)) none = true :=
         fun e => hk ((edgeExists_none_iff _ _ _).mp e)
-      simp only [ex, not_false_eq_true, if_true, if_neg hk]
+      simp only [ex, if_neg hk]
       exact addEdgeE_put hi.cls hi.canon hg hk hrev
 
 /-! ### forward edge loop -/
